@@ -30,11 +30,7 @@ func vbQuick4() []sq.Layout {
 		"w4:TX1,PFB1,PRP2,A3,B5,TAIL4",
 		"w4:A4,B4,C8",
 		"w4:TX2,A6p2,B3,TAIL5",
-		"w4:A16",
-		"w4:TAIL16",
 		"w4:TX1,TAIL15",
-		"w4:PFB3,A9,TAIL4",
-		"w4:A5,B10,TAIL1",
 	)
 }
 
@@ -92,9 +88,9 @@ func vbMakePlan(tier string) *vbPlan {
 	for j, l := range w1 {
 		p.add("bytes/w1 (all layouts, every identifier)", vbItem{Layout: l, Mode: "bytes", OnlyID: -1, Short2: j == 0})
 	}
-	b2 := sq.MustParse("w2:TX1,A2,TAIL1", "w2:A4")
+	b2 := sq.MustParse("w2:TX1,A2,TAIL1")
 	if tier == "thorough" {
-		b2 = append(b2, sq.MustParse("w2:TX1,PFB1,A1,B1", "w2:A1,B3", "w2:TAIL4", "w2:PRP1,A2p1,TAIL1", "w2:TX2,TAIL2", "w2:A2,B1,C1")...)
+		b2 = append(b2, sq.MustParse("w2:A4", "w2:TX1,PFB1,A1,B1", "w2:A1,B3", "w2:TAIL4", "w2:PRP1,A2p1,TAIL1", "w2:TX2,TAIL2", "w2:A2,B1,C1")...)
 	}
 	for _, l := range b2 {
 		w, err := vbNewWorld(l, 0, vbHeight(0), true)
@@ -175,7 +171,7 @@ func TestVerifC10(t *testing.T) {
 	}
 
 	tier := rep.Tier
-	deadline := rep.Deadline(75*time.Second, 16*time.Minute)
+	deadline := rep.Deadline(85*time.Second, 16*time.Minute)
 	col := &vbCollector{rep: rep, sigs: map[string]int{}}
 	exhaustive := true
 	total := vbNewStats()
